@@ -1631,8 +1631,18 @@ func c12GoRequiredUnionInitialised(ctx *Ctx, r *Report) {
 		r.Undecided("anchor lost: golang.RawTypes.defaultsForStructRec")
 		return
 	}
-	_ = p
 	parents := parentMap(fd)
+	fromOverrides := map[types.Object]bool{}
+	ast.Inspect(fd.Body, func(m ast.Node) bool {
+		if as, ok := m.(*ast.AssignStmt); ok && len(as.Lhs) == 2 && len(as.Rhs) == 1 && strings.Contains(exprString(as.Rhs[0]), "extraDefaults[") {
+			if id, ok := as.Lhs[1].(*ast.Ident); ok {
+				if o := objOf(p.TypesInfo, id); o != nil {
+					fromOverrides[o] = true
+				}
+			}
+		}
+		return true
+	})
 	handled := false
 	ast.Inspect(fd.Body, func(m ast.Node) bool {
 		c, ok := m.(*ast.CallExpr)
@@ -1648,6 +1658,20 @@ func c12GoRequiredUnionInitialised(ctx *Ctx, r *Report) {
 		if strings.HasPrefix(exprString(sel.X), "objectType") {
 			return true
 		}
+		// a test that is one conjunct of a condition asking for a declared default says nothing of the unions that
+		// have none
+		needsDefault := false
+		for q := parents[ast.Node(c)]; q != nil; q = parents[q] {
+			if be, ok := q.(*ast.BinaryExpr); ok && strings.Contains(exprString(be), ".Default != nil") {
+				needsDefault = true
+			}
+			if _, ok := q.(ast.Stmt); ok {
+				break
+			}
+		}
+		if needsDefault {
+			return true
+		}
 		// not under a condition that looks the field up in the enclosing defaults
 		under := false
 		for _, ce := range enclosingConds(parents, c) {
@@ -1656,6 +1680,10 @@ func c12GoRequiredUnionInitialised(ctx *Ctx, r *Report) {
 				text += exprString(init.Rhs[0])
 			}
 			if strings.Contains(text, "extraDefaults") && !ce.inElse {
+				under = true
+			}
+			// `v, found := extraDefaults[name]; …; if found {`
+			if id, ok := ast.Unparen(ce.stmt.Cond).(*ast.Ident); ok && !ce.inElse && fromOverrides[objOf(p.TypesInfo, id)] {
 				under = true
 			}
 		}
